@@ -69,6 +69,9 @@ func NewVoteDB(db youdb.Database, rawSk *ecdsa.PrivateKey) *VoteDB {
 		} else if v.round.Cmp(vote.Round) == 0 && v.roundIndex == vote.RoundIndex {
 			v.mark[VoteType(vote.VoteType)] = v.mark[VoteType(vote.VoteType)] + 1
 		} else {
+			// a record of a later position: the restored position must advance with it
+			v.round = vote.Round
+			v.roundIndex = vote.RoundIndex
 			v.mark = make(map[VoteType]uint8)
 			v.mark[VoteType(vote.VoteType)] = 1
 		}
@@ -79,6 +82,9 @@ func NewVoteDB(db youdb.Database, rawSk *ecdsa.PrivateKey) *VoteDB {
 
 	precommit := ReadVoteData(v.db, v.addr, Precommit, 1)
 	updateFn(precommit)
+
+	certificate := ReadVoteData(v.db, v.addr, Certificate, 1)
+	updateFn(certificate)
 
 	nextIndex1 := ReadVoteData(v.db, v.addr, NextIndex, 1)
 	updateFn(nextIndex1)
@@ -97,8 +103,12 @@ func (v *VoteDB) UpdateContext(round *big.Int, roundIndex uint32) {
 	v.lock.Lock()
 	defer v.lock.Unlock()
 
-	if v.round != nil && v.round.Cmp(round) == 0 && v.roundIndex == roundIndex {
-		return
+	if v.round != nil {
+		// never move backwards: after a restart the engine re-enters the round at index 1,
+		// while the restored position (and its marks) may already be further on
+		if c := v.round.Cmp(round); c > 0 || (c == 0 && v.roundIndex >= roundIndex) {
+			return
+		}
 	}
 
 	v.mark = make(map[VoteType]uint8)
@@ -162,6 +172,10 @@ func (v *VoteDB) ExistVoteData(voteType VoteType, round *big.Int, roundIndex uin
 }
 
 func (v *VoteDB) alreadyVoted(voteType VoteType, round *big.Int, roundIndex uint32) bool {
+	if v.round != nil && v.round.Cmp(round) > 0 {
+		// a position before the stored one
+		return true
+	}
 	if v.round != nil && v.round.Cmp(round) == 0 {
 		if v.roundIndex > roundIndex ||
 			(v.roundIndex == roundIndex && voteType == NextIndex && v.mark[voteType] == 2) ||
